@@ -71,8 +71,7 @@ def run_case(ctx, rng, sb, items, nobash=False, abort_item=None):
         node["fault"] = "readerr"
         # the storage of the reference run must not influence the faulted run's dedup (read pattern): wipe it
         import shutil
-        shutil.rmtree(case.st)
-        os.makedirs(case.st)
+        case.reset_storage()
     rc, out, ev = run(case, env, inject)
     wire = [1900, [[[walkrun.hook_wire(m["before"]), walkrun.hook_wire(m["after"]), [walkrun.wire_node(m["tree"])] if m["tree"] is not None else []]
                     for m in model_items]]]
